@@ -111,21 +111,28 @@ def enumerated_programs(repo, per_program=8):
         yield "\n".join(lines) + "\n"
 
 
-def strategy(repo):
+def strategy(repo, prefix=None, max_calls=6):
+    """Programs of 1..max_calls calls. With `prefix` every identifier the program introduces starts with it (C11 fragments)."""
     from hypothesis import strategies as st
+    import re as _re
     ms = methods(repo)
     lits = ["1", "2", '"s"', ":a", "nil", "1.5", "[1]", "[]", "{a: 1}", "{}", "(1..2)", "true", "n: 1", "m: \"s\"", "*[1]", "**{a: 1}", "&:to_s", "-1", "0"]
 
     @st.composite
     def prog(draw):
         out = []
-        for k in range(draw(st.integers(1, 6))):
+        for k in range(draw(st.integers(1, max_calls))):
             m = ms[draw(st.integers(0, len(ms) - 1))]
             args = draw(st.lists(st.sampled_from(lits), min_size=0, max_size=4))
             block = draw(st.sampled_from(BLOCKS))
-            if draw(st.integers(0, 3)) == 0:
+            if not prefix and draw(st.integers(0, 3)) == 0:
                 out += param_line(m, args, block, k=k)
             else:
                 out += call_line(m, args, block, via_var=draw(st.booleans()), k=k)
-        return "\n".join(out) + ("\n" if draw(st.integers(0, 9)) else "")
+        text = "\n".join(out)
+        if prefix:
+            text = _re.sub(r"\b(rz|vz|fz)(\d+)\b", lambda m_: "%s%s%s" % (prefix, m_.group(1), m_.group(2)), text)
+            text = _re.sub(r"\b(pz|bz|by)\b", lambda m_: prefix + m_.group(1), text)
+            return text + "\n"
+        return text + ("\n" if draw(st.integers(0, 9)) else "")
     return prog()
